@@ -16,6 +16,7 @@ pub fn c04_counter_increment_body(old: u64, v: u64) {
 }
 #[cfg(kani)]
 #[kani::proof]
+#[kani::unwind(3)]
 fn c04_counter_increment() {
     c04_counter_increment_body(kani::any(), kani::any());
 }
@@ -32,6 +33,7 @@ pub fn c04_counter_absolute_body(old: u64, v: u64) {
 }
 #[cfg(kani)]
 #[kani::proof]
+#[kani::unwind(3)]
 fn c04_counter_absolute() {
     c04_counter_absolute_body(kani::any(), kani::any());
 }
@@ -123,5 +125,43 @@ mod rg {
         let seen = unsafe { SEEN };
         assert!(unsafe { CALLS } == 1);
         assert!(same_f64(new, f64::from_bits(seen) - v));
+    }
+
+    // Rely/guarantee: absolute(v) under interference. Counters only move forward: between any two of this thread's atomic steps
+    // other threads may raise the cell (increments / absolutes; wrap-around of the 64-bit sum is excluded from the rely). Whatever
+    // primitive the implementation uses (fetch_max, or load + compare_exchange, ...), after absolute(v) returns the cell is >= v:
+    // "absolute values are never lost to a concurrent update".
+    pub static mut STEPS: u32 = 0;
+    unsafe fn raise(a: &AtomicU64) {
+        let cur = *a.as_ptr();
+        let up: u64 = kani::any();
+        kani::assume(up >= cur);
+        *a.as_ptr() = up;
+        STEPS += 1;
+    }
+    pub fn load_stub(a: &AtomicU64, _o: Ordering) -> u64 {
+        unsafe { raise(a); *a.as_ptr() }
+    }
+    pub fn fetch_max_stub(a: &AtomicU64, v: u64, _o: Ordering) -> u64 {
+        unsafe { raise(a); let cur = *a.as_ptr(); if v > cur { *a.as_ptr() = v; } cur }
+    }
+    pub fn cas_stub(a: &AtomicU64, cur: u64, new: u64, _s: Ordering, _f: Ordering) -> Result<u64, u64> {
+        unsafe { raise(a); let now = *a.as_ptr(); if now == cur { *a.as_ptr() = new; Ok(now) } else { Err(now) } }
+    }
+    #[kani::proof]
+    #[kani::unwind(3)]
+    #[kani::stub(core::sync::atomic::Atomic::<u64>::load, load_stub)]
+    #[kani::stub(core::sync::atomic::Atomic::<u64>::fetch_max, fetch_max_stub)]
+    #[kani::stub(core::sync::atomic::Atomic::<u64>::compare_exchange, cas_stub)]
+    #[kani::stub(core::sync::atomic::Atomic::<u64>::compare_exchange_weak, cas_stub)]
+    fn c04_counter_absolute_rg() {
+        let v: u64 = kani::any();
+        let a = AtomicU64::new(kani::any());
+        let before = unsafe { *a.as_ptr() };
+        CounterFn::absolute(&a, v);
+        let after = unsafe { *a.as_ptr() };
+        assert!(after >= v, "an absolute value is never lost to a concurrent update");
+        assert!(after >= before, "the counter never moves backwards");
+        kani::cover!(unsafe { STEPS } >= 1 && after > v);
     }
 }
